@@ -4,34 +4,64 @@ let sn x = string_of_int (int_of_n x)
 let sorted l = List.sort compare (List.map int_of_n l)
 let joini l = String.concat "." (List.map string_of_int l)
 
-let parse_cfg (ds : string) (ps : string) : cfg =
+let opt_n (v : string) : n option = if v = "-" then None else Some (n_of_string v)
+
+let parse_cfg (ds : string) (ps : string) : xcfg =
   let devs = if ds = "-" then [] else
     List.map (fun d -> let b = ios d in { dc_loop = b land 1 <> 0; dc_multi = b land 2 <> 0 })
       (String.split_on_char ',' ds) in
-  let ports = if ps = "-" then [] else
-    List.map (fun p ->
-      match String.split_on_char ':' p with
-      | [d; dir; cp; v] ->
-        { pc_dev = ni d; pc_in = (dir = "i");
-          pc_cap = (match ios cp with 2 -> CapFull | 1 -> CapStatic | _ -> CapNone);
-          pc_veto = if v = "-" then [] else List.map ni (String.split_on_char '.' v) }
-      | _ -> failwith "bad port") (String.split_on_char ',' ps) in
-  { c_ports = ports; c_devs = devs }
+  let ndev = List.length devs in
+  let fields = if ps = "-" then [] else
+    List.map (fun p -> Array.of_list (String.split_on_char ':' p)) (String.split_on_char ',' ps) in
+  let get a i = if Array.length a > i then a.(i) else "-" in
+  let ports = List.map (fun a ->
+      { pc_dev = ni a.(0); pc_in = (a.(1) = "i");
+        pc_cap = (match ios a.(2) with 2 -> CapFull | 1 -> CapStatic | _ -> CapNone);
+        pc_veto = if a.(3) = "-" then [] else List.map n_of_string (String.split_on_char '.' a.(3)) }) fields in
+  let arr = Array.of_list fields in
+  let at (p : n) = let i = int_of_n p in if i < Array.length arr then Some arr.(i) else None in
+  (* the state-dependent part of PreSetUniverse: a rule on the patching of one sibling port *)
+  let vetof (p : n) (req : n option) (v : (n * n option) list) : bool =
+    match at p with
+    | None -> false
+    | Some a ->
+      let r = get a 4 in
+      if r = "-" || ios a.(0) >= ndev then false else
+      let buddy = n_of_int (ios (String.sub r 1 (String.length r - 1))) in
+      (match List.assoc_opt buddy v with
+       | Some (Some m) ->
+         (match r.[0] with
+          | 'B' -> true
+          | 'b' -> req <> None
+          | 'e' -> req = Some m
+          | 'u' -> req = None
+          | _ -> false)
+       | _ -> false) in
+  (* ports without a device have an empty UniqueId: no preference key exists for them *)
+  let pref k (p : n) = match at p with Some a when ios a.(0) < ndev -> opt_n (get a k) | _ -> None in
+  { xc_cfg = { c_ports = ports; c_devs = devs }; xc_veto = vetof;
+    xc_puni = pref 5; xc_pprio = pref 6; xc_pmode = pref 7 }
 
-let parse_op (s : string) : op =
+let parse_op (s : string) : xop =
   match String.split_on_char '.' s with
-  | ["P"; p; n] -> Patch (ni p, ni n)
+  | ["R"; d] -> XRegister (ni d)
+  | ["N"; d] -> XUnregister (ni d)
+  | ["NA"] -> XUnregisterAll
+  | ["RA"; n; c] -> XSvcRegister (n_of_string n, ni c)
+  | ["RU"; n; c] -> XSvcUnregister (n_of_string n, ni c)
+  | l -> XBase (match l with
+  | ["P"; p; n] -> Patch (ni p, n_of_string n)
   | ["U"; p] -> Unpatch (ni p)
   | ["S"; p; v] -> PrioStatic (ni p, ni v)
   | ["I"; p] -> PrioInherit (ni p)
   | ["G"] -> GC
-  | ["KA"; n; c] -> SinkAdd (ni n, ni c)
-  | ["KR"; n; c] -> SinkRem (ni n, ni c)
-  | ["SA"; n; c] -> SrcAdd (ni n, ni c)
-  | ["SR"; n; c] -> SrcRem (ni n, ni c)
+  | ["KA"; n; c] -> SinkAdd (n_of_string n, ni c)
+  | ["KR"; n; c] -> SinkRem (n_of_string n, ni c)
+  | ["SA"; n; c] -> SrcAdd (n_of_string n, ni c)
+  | ["SR"; n; c] -> SrcRem (n_of_string n, ni c)
   | ["D"; p] -> Data (ni p)
   | ["X"; d] -> Stop (ni d)
-  | _ -> failwith "bad op"
+  | _ -> failwith "bad op")
 
 let dump (c : cfg) (s : state) : string =
   let np = List.length c.c_ports in
@@ -65,6 +95,21 @@ let dump (c : cfg) (s : state) : string =
 let cands (s : state) : string =
   joini (List.sort compare (List.map (fun o -> match deref s o with Some u -> int_of_n u.u_num | None -> -1) s.s_cand))
 
+let broker_s (c : cfg) (x : xstate) : string =
+  let np = List.length c.c_ports in
+  let l = ref [] in
+  for i = np - 1 downto 0 do
+    let p = n_of_int i in
+    if x.x_broker p then l := ((if x.x_s.s_pdead p then "x" else "") ^ string_of_int i) :: !l
+  done;
+  String.concat "." !l
+
+let prefs_s (c : cfg) (x : xstate) : string =
+  let np = List.length c.c_ports in
+  let o f p = match f p with Some v -> string_of_n v | None -> "-" in
+  String.concat "," (List.init np (fun i -> let p = n_of_int i in
+    o x.x_puni p ^ "/" ^ o x.x_pprio p ^ "/" ^ o x.x_pmode p))
+
 let res_s (r : res) = match r with
   | RBool true -> "1" | RBool false -> "0" | RUnit -> "-"
   | RSaved l -> "saved:" ^ joini (sorted l)
@@ -72,40 +117,56 @@ let res_s (r : res) = match r with
 let handle (payload : string) : string =
   match split payload with
   | [ds; ps; os] ->
-    let c = parse_cfg ds ps in
+    let xc = parse_cfg ds ps in
+    let c = xc.xc_cfg in
     let ops = if os = "-" then [] else List.map parse_op (String.split_on_char ',' os) in
     let b = Buffer.create 1024 in
-    let s = ref (init c) in
+    let x = ref (xinit xc) in
     let tags = Hashtbl.create 8 in
     let tag t = Hashtbl.replace tags t () in
-    Buffer.add_string b ("d=" ^ dump c !s);
+    Buffer.add_string b ("d=" ^ dump c !x.x_s);
     let dead = ref false in
     List.iteri (fun k o ->
       if not !dead then begin
+        let s = !x.x_s in
         (* classify what this op exercises *)
         (match o with
-         | Patch (p, n) ->
-           (match port_of c !s p with
+         | XBase (Patch (p, n)) ->
+           (match port_of c s p with
             | None -> tag "nullport"
             | Some pc ->
-              let cur = port_unum !s p in
+              let cur = port_unum s p in
               if cur = Some (Some n) then tag "same"
-              else (match device_refuses c !s pc n with
+              else (match device_refuses c s pc n with
                 | Some true -> tag (if (match dev_cfg c pc.pc_dev with Some d -> not d.dc_loop | None -> false)
-                                       && (match check_match !s (dev_ports c !s pc.pc_dev (not pc.pc_in)) n with Some true -> true | _ -> false)
+                                       && (match check_match s (dev_ports c s pc.pc_dev (not pc.pc_in)) n with Some true -> true | _ -> false)
                                     then "loop" else "multi")
-                | _ -> if veto pc n then tag (if cur = Some None then "vetofresh" else "vetorepatch")
-                       else tag (if cur = Some None then "patch" else "repatch")))
-         | Stop _ -> tag "stop"
+                | _ ->
+                  let sv = match sib_view c s pc with Some v -> xc.xc_veto p (Some n) v | None -> false in
+                  if veto pc n then tag (if cur = Some None then "vetofresh" else "vetorepatch")
+                  else if sv then tag "vetostate"
+                  else tag (if cur = Some None then "patch" else "repatch")))
+         | XBase (Unpatch p) ->
+           (match port_of c s p with
+            | Some pc when port_unum s p <> Some None ->
+              (match sib_view c s pc with Some v when xc.xc_veto p None v -> tag "vetounpatch" | _ -> ())
+            | _ -> ())
+         | XBase (Stop _) -> tag "stop"
+         | XRegister _ -> tag "register"
+         | XUnregister _ | XUnregisterAll -> tag "unregister"
+         | XSvcUnregister (n, _) -> if sfind n s.s_store = None then tag "svcunreg-missing"
          | _ -> ());
-        match step c !s o with
-        | Dangling -> dead := true; Buffer.add_string b (Printf.sprintf ";r%d=MODEL-DANGLING" k)
-        | Ok (s', r) ->
+        match xstep xc !x o with
+        | XDangling -> dead := true; Buffer.add_string b (Printf.sprintf ";r%d=MODEL-DANGLING" k)
+        | XOk (x', r) ->
           (match r with RSaved (_ :: _) -> tag "gc" | _ -> ());
-          s := s';
-          Buffer.add_string b (Printf.sprintf ";r%d=%s;d%d=%s;c%d=%s" k (res_s r) k (dump c s') k (cands s'))
+          let r = match o with XSvcRegister _ | XSvcUnregister _ -> RUnit | _ -> r in
+          x := x';
+          Buffer.add_string b (Printf.sprintf ";r%d=%s;d%d=%s;c%d=%s;b%d=%s;f%d=%s" k (res_s r) k (dump c x'.x_s)
+                                 k (cands x'.x_s) k (broker_s c x') k (prefs_s c x'))
       end) ops;
-    let order = ["vetorepatch"; "vetofresh"; "loop"; "multi"; "gc"; "stop"; "repatch"; "nullport"] in
+    let order = ["vetounpatch"; "vetostate"; "vetorepatch"; "vetofresh"; "register"; "unregister"; "svcunreg-missing";
+                 "loop"; "multi"; "gc"; "stop"; "repatch"; "nullport"] in
     let prim = match List.filter (fun t -> t <> "gc" && Hashtbl.mem tags t) order with t :: _ -> t | [] -> "plain" in
     let cls = prim ^ (if Hashtbl.mem tags "gc" then "+collect" else "") in
     Buffer.add_string b (";class=" ^ cls);
